@@ -14,6 +14,15 @@ def parseTyp (k : String) : OType Float :=
   | ["T", px, m, t] => .trigger (f64 px) (m == "1") (if t == "tp" then .tp else .sl)
   | _ => .limit .alo
 
+/-- the two order fields that do not influence matching, as the harness annotates them (`X1` reduce_only,
+    `X2` a client order id, `X3` both) -/
+def extras (x : String) : Bool × Option String :=
+  match x with
+  | "X1" => (true, none)
+  | "X2" => (false, some "0x1234567890abcdef1234567890abcdef")
+  | "X3" => (true, some "0xfeedfacefeedfacefeedfacefeedface")
+  | _ => (false, none)
+
 def showTyp : OType Float → String
   | .limit .ioc => "L:ioc" | .limit .gtc => "L:gtc" | .limit .alo => "L:alo"
   | .trigger px m t =>
@@ -47,6 +56,9 @@ def step (s : Jura Float) (ts : List String) : Jura Float × String :=
   match ts with
   | ["I", asset, isBuy, lpx, sz, kind] =>
     let o : JOrd := ⟨asset.toNat!, isBuy == "1", f64 lpx, f64 sz, false, none, parseTyp kind⟩
+    ({ s with buffer := s.buffer ++ [o] }, "ok")
+  | ["I", asset, isBuy, lpx, sz, kind, x] =>
+    let o : JOrd := ⟨asset.toNat!, isBuy == "1", f64 lpx, f64 sz, (extras x).1, (extras x).2, parseTyp kind⟩
     ({ s with buffer := s.buffer ++ [o] }, "ok")
   | ["D", asset, id] =>
     let s' := { s with book := s.book.delete asset.toNat! id.toNat! }
